@@ -24,6 +24,9 @@ SYMBOLIC = (
     "c**2",
     "a%2+1",
     "q+1",  # q is never bound by the generators: always an unbound name
+    "n+1",  # n, m are ARGUMENTS of the call context, not axes: without braces they are unbound names
+    "a*m",
+    "n",
 )
 
 
